@@ -5,8 +5,9 @@
 # gives the same result). One at a time: fixed scratch paths keep cargo fingerprints stable.
 set -u
 PATCH="$(realpath "$1")"; shift
-WT=/tmp/seedwt; SV=/tmp/seedverif; TG=/tmp/seedtarget
-exec 9>/tmp/seedtest.lock; flock 9
+# SEEDSLOT=<n> selects an independent set of scratch paths, so that several runs can go on side by side
+S="${SEEDSLOT:-}"; WT=/tmp/seedwt$S; SV=/tmp/seedverif$S; TG=/tmp/seedtarget$S
+exec 9>/tmp/seedtest$S.lock; flock 9
 if [ ! -d "$WT/.git" ] && [ ! -f "$WT/.git" ]; then git -C /repo worktree add --detach "$WT" HEAD >/dev/null 2>&1; fi
 git -C "$WT" checkout -q --detach "$(git -C /repo rev-parse HEAD)" 2>/dev/null
 git -C "$WT" reset -q --hard "$(git -C /repo rev-parse HEAD)"; git -C "$WT" clean -qfd
